@@ -446,9 +446,12 @@ def run(ctx):
     samples = []
     for (kind, j), r in zip(jobs, res):
         if isinstance(r, Crash):
+            rep = dict(kind='scheme', mod=j[0], name=j[1], dim=j[2],
+                       solid=j[3]) if kind == 's' else \
+                dict(kind='generated', idxs=list(j[0]), thorough=j[1],
+                     wiring=j[2])
             viol.setdefault('integrator:crash:%s' % (
-                j[1] if kind == 's' else 'generated'), (r.reason,
-                                                        dict(job=repr(j))))
+                j[1] if kind == 's' else 'generated'), (r.reason, rep))
             continue
         if kind == 's':
             tag = '%s dim=%d solid=%s' % (j[1], j[2], j[3])
@@ -504,5 +507,7 @@ def replay(ctx, obj):
         r = _scheme_job((obj['mod'], obj['name'], obj['dim'], obj['solid'],
                          {}))
         return dict(violates='problem' in r, result=r)
-    r = _gen_job(([obj['idx']], obj.get('thorough', False), obj['wiring']))
-    return dict(violates=bool(r[0][2]), result=r)
+    idxs = obj['idxs'] if 'idxs' in obj else [obj['idx']]
+    # a native crash ends the replay process itself (non-zero exit status)
+    r = _gen_job((idxs, obj.get('thorough', False), obj['wiring']))
+    return dict(violates=any(x[2] for x in r), result=r)
